@@ -358,6 +358,19 @@ func main() {
 		case res.parseErr != nil || res.log == nil:
 			r.Inconclusive(fmt.Sprintf("run %s: log unreadable: %v", s.label(), res.parseErr))
 			continue
+		case res.log.Entries == 0 && res.log.Crash != "" && !strings.Contains(res.log.Crash, "listen tcp") && !strings.Contains(res.log.Crash, "bind:"):
+			// the program died (Go panic / fatal error) before it logged anything: it certainly does not extend its chain
+			r.Count("runs_crashed", 1)
+			if g := groups["sim-crash"]; g != nil {
+				g.others = append(g.others, s.label())
+			} else {
+				groups["sim-crash"] = &sigGroup{what: "the simulation terminated abnormally before it logged anything: " + res.log.Crash + " [run: " + s.label() + "]",
+					witness: map[string]any{"seed": r.Seed, "tier": r.Tier, "tree": ev.Tree(), "spec": s.Spec, "exit_code": res.exit,
+						"replay_cmd": fmt.Sprintf("cd %s && go build %s-o /var/tmp/sim ./internal/simulation && GOMAXPROCS=%d unshare -n -- sh -c 'ip link set lo up; exec /var/tmp/sim %s'", ev.Tree(), raceFlag(s.Race), s.MaxProcs, s.Flags()),
+						"log_tail": strings.Split(tail(res.logPath, 14), "\n")}}
+				sigOrder = append(sigOrder, "sim-crash")
+			}
+			continue
 		case res.log.Entries == 0:
 			r.Inconclusive(fmt.Sprintf("run %s: empty log (exit code %d): %s", s.label(), res.exit, tail(res.logPath, 3)))
 			continue
